@@ -13,9 +13,9 @@ def main(tier, seed, args):
                   'outside': 'more lifecycles / parts / faults'}
     rep.assumptions = ['node model of the datastore (modes, generations)', 'every applied environment effect is a possible crash image: the invariant is evaluated after each']
     rep.trusted = ['mirsym', 'z3', 'node model', 'tokio contracts']
-    budget = 100 if tier == 'quick' else 1500
+    budget = 400 if tier == 'quick' else 3000
     configs = []
-    for name, cfg, pc, kw in scen_payflow.standard_configs(tier, crash=True, write_faults=1, fault_methods=()):
+    for name, cfg, pc, kw in scen_payflow.standard_configs(tier, two_sets=('paid', 'failed'), crash=True, write_faults=1, fault_methods=()):
         configs.append((name, cfg, pc, [WriteAhead(), Coverage(['ds_write'] if 'succeeded' not in name else ['response:Resolve'])], kw))
     scen_common.run_configs(rep, PID, c, configs, budget)
     finish(rep, [c], './check C08 --tier ' + tier)
